@@ -233,7 +233,6 @@ def unreachable_reasons(cube: np.ndarray) -> List[str]:
     corner_pos, corner_home, twist = [], [], 0
     edge_pos, edge_home, flip = [], [], 0
     for P, st in cubies(n).items():
-        n_ext = sum(1 for x in P if abs(x) == ext)
         if len(st) == 3:  # corner
             normals = [N for N, _ in st]
             cols = [NORMALS[int(flat[i])] for _, i in st]
@@ -277,7 +276,6 @@ def unreachable_reasons(cube: np.ndarray) -> List[str]:
             N, i = st[0]
             if NORMALS[int(flat[i])] != N:
                 bad.append("centre-moved")
-        del n_ext
     if "invalid-corner-cubie" in bad or "invalid-edge-cubie" in bad:
         return sorted(set(bad))
     if sorted(corner_home) != sorted(corner_pos):
@@ -309,7 +307,6 @@ def crafted_unreachable(n: int) -> List[Tuple[str, np.ndarray]]:
     out: List[Tuple[str, np.ndarray]] = []
     base = solved_cube(n).reshape(-1)
     cb = cubies(n)
-    ext = n - 1
     corner = next(st for P, st in cb.items() if len(st) == 3)
     idx = [i for _, i in corner]
     t = base.copy()
@@ -339,7 +336,6 @@ def crafted_unreachable(n: int) -> List[Tuple[str, np.ndarray]]:
                 t[[oa, ob]] = base[[ob, oa]]
                 out.append(("two-edge-swap", t.reshape(6, n, n)))
                 break
-    del ext
     return out
 
 
